@@ -306,6 +306,29 @@ Definition fw_clause (sc : escen) (ob : eobs) : bool :=
              | None => true
              end) ob.
 Definition spec_C05x (sc : escen) (ob : eobs) : bool := spec_C05 sc ob && fw_clause sc ob.
+(* "no further node of the flow is started": once the context is cancelled, no prep callback is made
+   for ANY kind of node - except for a batch node that is itself the root of the run (a batch node
+   run directly looks at the context only per item).  A batch node that is a step of a flow is not
+   started: the flow looks at the context before every step.  This clause judges every scenario,
+   also those the lifecycle monitor does not (tables with batch or partial nodes).  It is not
+   proved of the model; every case file evaluates it on the model's own observation too. *)
+Fixpoint late_prep_ok (okn : nid -> bool) (canc : bool) (tr : list event) : bool :=
+  match tr with
+  | [] => true
+  | e :: r =>
+      (if canc then match ev_call e with CPrep n _ => okn n | _ => true end else true)
+      && late_prep_ok okn (canc || ev_cancel e) r
+  end.
+Fixpoint late_prep_runs (okn : nid -> bool) (canc : bool) (ob : eobs) : bool :=
+  match ob with
+  | [] => true
+  | (tr, _, _) :: rest => late_prep_ok okn canc tr && late_prep_runs okn (canc || existsb ev_cancel tr) rest
+  end.
+Definition is_root_batch (sc : escen) (n : nid) : bool :=
+  Nat.eqb n (es_root sc) &&
+  match table_of (es_nodes sc) n with Some (NBatch _ _ _) => true | _ => false end.
+Definition spec_C05y (sc : escen) (ob : eobs) : bool :=
+  spec_C05x sc ob && late_prep_runs (is_root_batch sc) (es_precancel sc) ob.
 (* the same clause for C04: a run in which every callback succeeded cannot fail with an error the
    framework made up, unless the scenario has a cause for one *)
 Definition spec_C04x (sc : escen) (ob : eobs) : bool := spec_C04 sc ob && fw_clause sc ob.
